@@ -284,6 +284,9 @@ def make_inputs(tmp):
     ajson.write(ss, f)
     out.append(('overloaded-pflow', f, [], {}, False))
     out.append(('overloaded-then-tds', f, ['tds'], {'tf': 0.1}, False))
+    # the same infeasible network with the other power-flow methods the routine offers
+    out.append(('overloaded-pflow-NK', f, [], {'config_option': ['PFlow.method=NK']}, False))
+    out.append(('overloaded-pflow-dishonest', f, [], {'config_option': ['PFlow.method=dishonest']}, False))
     out.append(('overloaded-then-eig', f, ['eig'], {}, False))
     # dangling mandatory reference
     ss = andes.load(andes.get_case('ieee14/ieee14.json'), setup=False, no_output=True, default_config=True)
@@ -326,6 +329,15 @@ def make_inputs(tmp):
     f3 = os.path.join(tmp, 'unstable.json')
     ajson.write(ss, f3)
     out.append(('unstable-fault', f3, ['tds'], {'tf': 4.0}, False))
+    # the same with the fault as the ONLY event of the case (no line switching)
+    ss = andes.load(andes.get_case('kundur/kundur_full.xlsx'), setup=False, no_output=True, default_config=True)
+    for i in range(ss.Toggle.n):
+        ss.Toggle.u.v[i] = 0
+    ss.add('Fault', dict(bus=ss.Bus.idx.v[6], tf=0.1, tc=2.0, xf=1e-4))
+    ss.setup()
+    f6 = os.path.join(tmp, 'unstable_fault_only.json')
+    ajson.write(ss, f6)
+    out.append(('unstable-fault-only', f6, ['tds'], {'tf': 4.0}, False))
     return out
 
 
